@@ -57,7 +57,7 @@ def gen_case(rng, tier):
                 case["dynstep"] = True
         return case
     mode = rng.choice(["static", "minimalloc", "minimalloc", "auto", "dynamic"])
-    ast = AG.AllocGen(rng, views=rng.random() < 0.7, two_mem=rng.random() < 0.2 and mode != "dynamic").program(callee=rng.random() < 0.15)
+    ast = AG.AllocGen(rng, views=rng.random() < 0.7, two_mem=rng.random() < 0.2 and mode != "dynamic", odd_align=rng.random() < 0.3 and mode != "dynamic").program(callee=rng.random() < 0.15)
     return {
         "fam": "place",
         "ast": ast,
